@@ -143,12 +143,28 @@ def run(tier, selftest):
             n_lex += 1
     if n_lex < 50000:
         vlib.tool_error(f"only {n_lex} lexer inputs")
-    rc, lines, err = vlib.run_harness(binp, ["lexer-replay", "--cases", lc, "--dir", os.path.join(vlib.scratch(), "lexdir"), "--loads"], timeout=3000)
-    if rc != 0 or not lines or "summary" not in lines[-1]:
-        vlib.tool_error(f"lexer-replay failed rc={rc}: {err[-400:]}")
-    for m in lines[:-1]:
-        rep.violation(f"lexer:{m['kind']}", m["mismatch"][:400], {"kind": "bytes", "case": m["case"]})
-    lsum = lines[-1]["summary"]
+    lex_cases = None
+    skip, lsum, nhang = 0, {"loads": 0, "cases": 0}, 0
+    while True:
+        rc, lines, err, hung = vlib.run_harness_watched(binp, ["lexer-replay", "--cases", lc, "--dir", os.path.join(vlib.scratch(), "lexdir"), "--loads", "--skip", skip], stall=20)
+        for m in lines:
+            if "mismatch" in m:
+                rep.violation(f"lexer:{m['kind']}", m["mismatch"][:400], {"kind": "bytes", "case": m["case"]})
+        if hung is None:
+            if rc != 0 or not lines or "summary" not in lines[-1]:
+                vlib.tool_error(f"lexer-replay failed rc={rc}: {err[-400:]}")
+            lsum = {k: lsum.get(k, 0) + v for k, v in lines[-1]["summary"].items()}
+            break
+        # a load that does not return: the case is data, the run goes on behind it
+        if lex_cases is None:
+            lex_cases = [json.loads(l) for l in open(lc)]
+        nhang += 1
+        case = lex_cases[hung] if 0 <= hung < len(lex_cases) else {"bytes": []}
+        rep.violation("load:hang:lexer-input", f"tokenizing / loading the input did not return (no progress for 20 s): bytes {case['bytes'][:60]}", {"kind": "bytes", "case": case})
+        if hung < 0 or nhang >= 5:
+            lsum = {"loads": 4 * max(hung, 0), "cases": max(hung, 0)}
+            break
+        skip = hung + 1
     # (b) parser mutations
     rng = random.Random(vlib.seed() * 3 + 3)
     elems = sorted(t for t in docgen.PATHS if t != "A2L_FILE")
@@ -177,8 +193,10 @@ def run(tier, selftest):
     # (c) hostile A2ML, one process per case
     hostile = hostile_cases()
     hres = {}
-    for i, c in enumerate(hostile):
-        status, info = run_isolated(binp, c, i)
+    from concurrent.futures import ThreadPoolExecutor
+    with ThreadPoolExecutor(max_workers=12) as ex:
+        outcomes = list(ex.map(lambda ic: run_isolated(binp, ic[1], ic[0]), enumerate(hostile)))
+    for c, (status, info) in zip(hostile, outcomes):
         hres[status] = hres.get(status, 0) + 1
         if status != "ok":
             rep.violation(f"a2ml:{status}:{c['name']}", f"hostile A2ML '{c['name']}' ({c['where']}, IF_DATA '{c['payload']}'): {status} {info[:200]}",
